@@ -25,13 +25,22 @@ Theorem C12_emit_wellformed : forall (A : Type) (lines : list A) lineno col,
 Proof. exact emit_wellformed. Qed.
 Print Assumptions C12_emit_wellformed.
 
-(* 2. exactly when it raises: the line number is not a valid subscript for both
-      lines[lineno-1] and lines[lineno-2] *)
+(* 2. exactly when it raises: the line number is not a valid subscript for
+      lines[lineno-1] (lines[lineno-2] is only evaluated for lineno >= 2, where it is
+      then valid as well) *)
 Theorem C12_emit_crash_iff : forall (A : Type) (lines : list A) lineno col,
   emit lines (Some lineno) col = Crash <->
-  ~ (2 - Z.of_nat (length lines) <= lineno <= Z.of_nat (length lines))%Z.
+  ~ (1 - Z.of_nat (length lines) <= lineno <= Z.of_nat (length lines))%Z.
 Proof. exact emit_crash_iff. Qed.
 Print Assumptions C12_emit_crash_iff.
+
+(* the subscripts of `lines` in the CURRENT show_error, their guards, the bounds of the
+   context loop and CONTEXT_LINES are the ones the model was written for *)
+Theorem C12_show_error_shape_pinned :
+  show_error_subscripts = pinned_subscripts /\ show_error_context_bounds = pinned_context_bounds /\
+  Z.of_nat show_error_context_lines = CONTEXT_LINES.
+Proof. exact show_error_shape_pinned. Qed.
+Print Assumptions C12_show_error_shape_pinned.
 
 Theorem C12_emit_without_position_total : forall (A : Type) (lines : list A) col,
   emit lines None col = Emitted None col [].
